@@ -190,6 +190,10 @@ class ProgGen:
             return ["compat_q", a, b if rng.random() < 0.7 else self.unit_str(ci)]
         if r < 0.81:
             return [rng.choice(["name", "symbol", "contains", "getattr"]), self.unit_str(ci, False)]
+        if r < 0.855:
+            # parse_pattern goes through the process-wide pattern_to_regex memo
+            a, b = self.unit_str(ci, False), self.unit_str(ci, False)
+            return ["pattern", "3.5 and 2", "{%s} and {%s}" % (a, b)]
         if r < 0.87:
             return ["fmt_q", x, self.unit_str(ci), rng.choice(FORMAT_SPECS)]
         if r < 0.90:
@@ -662,6 +666,14 @@ class _Run:
             self.log.ev(s["id"], ci, "appreg")
         elif k == "lru":
             self._putil.ParserHelper.from_string.cache_clear()
+            try:
+                import pint.facets.plain.registry as preg
+                from pint.delegates.formatter import _spec_helpers
+
+                preg.pattern_to_regex.cache_clear()
+                _spec_helpers._split_format.cache_clear()
+            except Exception:
+                pass
             self.col.fault("lru_evict")
             self.log.ev(s["id"], ci, "lru")
         elif k == "gc":
